@@ -65,7 +65,7 @@ TIER = {
     "thorough": dict(
         mc=[dict(name="w2-o4", W=["w1", "w2"], ops="MC_OpsTiny", buf=1, maxops=4, hb=1),
             dict(name="w2-o5-b2", W=["w1", "w2"], ops="MC_OpsTiny", buf=2, maxops=5, hb=1),
-            dict(name="w3-o4", W=W3, ops="MC_OpsSmall", buf=1, maxops=4, hb=1, design=False)],
+            dict(name="w3-o4-nohb", W=W3, ops="MC_OpsSmall", buf=1, maxops=4, hb=0, design=False)],
         sim=dict(num=3000, depth=30), rnd=4000, rnd_len=40, workers=8, timeout=2700),
 }
 
